@@ -203,10 +203,15 @@ def cursor_limit_rule(rep, u, rel="include/proto/dns.h"):
                         s_ = core.strip_casts(x_["args"][1])
                         if core.is_ref(s_) and s_.get("id") == cid and const_val(x_["args"][2]) is not None:
                             reads.append((p_, x_, const_val(x_["args"][2])))
+                        elif core.is_ref(s_) and s_.get("id") == cid and core.is_ref(core.strip_casts(x_["args"][2])):
+                            reads.append((p_, x_, core.strip_casts(x_["args"][2])))     # variable length: evaluated for the value 5
                 for rpos, rx, ext in reads:
                     n += 1
+                    extvar = None
+                    if isinstance(ext, dict):
+                        extvar, ext = ext, 5
                     inst = "read-inside:%s@%s" % (cname, _read_ordinal(reads, rpos))
-                    desc = "%s: the read of %d byte(s) at %s is preceded in the same iteration by a test against %s" % (fn.name, ext, cname, lname)
+                    desc = "%s: the read of %s byte(s) at %s is preceded in the same iteration by a test against %s" % (fn.name, key(extvar) if extvar is not None else ext, cname, lname)
                     good = None
                     for b in checks:
                         if not fn.pos_dominates((b, len(fn.blocks[b].elems) - 1), rpos):
@@ -224,6 +229,8 @@ def cursor_limit_rule(rep, u, rel="include/proto/dns.h"):
                                 env[id(y)] = L0 - (ext - 1)
                             elif core.is_ref(y) and y.get("id") == lid:
                                 env[id(y)] = L0
+                            elif extvar is not None and core.is_ref(y) and y.get("id") == extvar.get("id"):
+                                env[id(y)] = ext
                         try:
                             v = r_mpt.eval_expr(c, env)
                         except r_mpt.Unknown:
